@@ -369,7 +369,17 @@ def exporter_model(prog: Program) -> dict:
         raise AnalysisError(f"exporter branch for {cls} vanished")
 
     # -- searches (SP, TB): loop over a table, candidate == a_stereo ----------
-    for cls, k in (("SquarePlanar", 4), ("TrigonalBipyramidal", 5)):
+    # literal tables of the importer class (the exporter may iterate them)
+    imp_env = {}
+    ici = prog.classes.get("RDMol2StereoMolGraph")
+    if ici is not None:
+        for name, node in ici.assigns.items():
+            try:
+                imp_env[f"RDMol2StereoMolGraph.{name}"] = const(node)
+            except Exception:
+                pass
+    for cls, k in (("SquarePlanar", 4), ("TrigonalBipyramidal", 5),
+                   ("Octahedral", 6)):
         br = branch(cls)
         loops = [n for n in ast.walk(br) if isinstance(n, ast.For)]
         model = None
@@ -385,9 +395,10 @@ def exporter_model(prog: Program) -> dict:
             side = c.left if "a_stereo" not in norm(c.left) else c.comparators[0]
             raw = not (isinstance(side, ast.Call) and call_name(side) == cls)
             # rows of the iterated table
-            f0 = Fold({})
-            f0.run([s for s in ast.walk(br) if isinstance(s, ast.Assign)
-                    and isinstance(s.value, ast.Dict)])
+            f0 = Fold(imp_env)
+            f0.run(sorted([s for s in ast.walk(br) if isinstance(s, ast.Assign)
+                           and isinstance(s.value, (ast.Dict, ast.Attribute))],
+                          key=lambda s: s.lineno))
             it = loop.iter
             rows = None
             if isinstance(it, ast.Call) and isinstance(it.func, ast.Attribute) \
@@ -404,6 +415,22 @@ def exporter_model(prog: Program) -> dict:
             model = {"loop": loop, "rows": rows, "cmp": c, "side": side,
                      "raw": raw, "set": setp[0], "k": k, "branch": br}
         out[cls] = model
+    def dead(n):
+        from .core import ancestors
+        prev = n
+        for a in ancestors(n):
+            if isinstance(a, ast.If) and isinstance(a.test, ast.Constant) \
+                    and a.test.value is False and any(
+                    prev is b for b in a.body):
+                return True
+            prev = a
+        return False
+    out["bond_rewrites"] = [n for n in ast.walk(fi.node)
+                            if isinstance(n, ast.Call) and norm(n.func) in (
+                                "mol.RemoveBond", "mol.AddBond")
+                            and not dead(n)]
+    if out.get("Octahedral") is not None:
+        return _tetra(out, branch)
     # -- octahedral: bond re-insertion order + parity labels -----------------
     br = branch("Octahedral")
     order = None
@@ -433,7 +460,10 @@ def exporter_model(prog: Program) -> dict:
                   for x in ast.walk(br))
     out["Octahedral"] = {"order": order, "labels": labels, "removes": removes,
                          "branch": br}
-    # -- tetrahedral -------------------------------------------------------------
+    return _tetra(out, branch)
+
+
+def _tetra(out, branch):
     br = branch("Tetrahedral")
     cmp_ = [c for c in ast.walk(br) if isinstance(c, ast.Compare)
             and isinstance(c.ops[0], (ast.Eq, ast.In))
